@@ -2490,10 +2490,12 @@ NV_TPMT_SENSITIVE_Unmarshal(TPMT_SENSITIVE *target, BYTE **buffer, INT32 *size)
 	    rc = TPMU_SENSITIVE_COMPOSITE_Unmarshal(&target->sensitive, buffer, size, target->sensitiveType);
 	    break;
 	default:
-            pAssert(target->authValue.t.size == 0);
-            pAssert(target->seedValue.t.size == 0);
-            pAssert(target->sensitiveType == TPM_ALG_ERROR);
-	    /* nothing do to do */
+            /* a public key; the values come from a state blob, so do not
+             * pAssert() on them */
+            if (target->authValue.t.size != 0 ||
+                target->seedValue.t.size != 0 ||
+                target->sensitiveType != TPM_ALG_ERROR)
+                rc = TPM_RC_VALUE;
 	}
     }
     return rc;
@@ -4163,6 +4165,16 @@ PERSISTENT_DATA_PPList_Unmarshal(PERSISTENT_DATA *data, BYTE **buffer, INT32 *si
         rc = UINT16_Unmarshal(&array_size, buffer, size);
     }
     if (rc == TPM_RC_SUCCESS) {
+        /* the size comes from the state blob: no empty array (buf[] below) and
+         * nothing larger than what it is copied into */
+        if (array_size == 0 ||
+            (blob_version > 4 && array_size > sizeof(data->ppList))) {
+            TPMLIB_LogTPM2Error("PERSISTENT_DATA: Bad array size for ppList; "
+                                "got %u\n", array_size);
+            rc = TPM_RC_SIZE;
+        }
+    }
+    if (rc == TPM_RC_SUCCESS) {
         BYTE buf[array_size];
 
         rc = Array_Unmarshal(buf, array_size, buffer, size);
@@ -4173,7 +4185,6 @@ PERSISTENT_DATA_PPList_Unmarshal(PERSISTENT_DATA *data, BYTE **buffer, INT32 *si
                                                    data->ppList, sizeof(data->ppList));
             } else {
                 memset(data->ppList, 0, sizeof(data->ppList));
-                assert(array_size <= sizeof(data->ppList));
                 memcpy(data->ppList, buf, array_size);
             }
         }
